@@ -6,6 +6,7 @@
 import Driver.StackFam
 import Driver.SelFam
 import Driver.OpsFam
+import Driver.ResFam
 open Driver
 
 def dispatch (stdin stdout : IO.FS.Stream) (line : String) : IO String := do
@@ -13,6 +14,7 @@ def dispatch (stdin stdout : IO.FS.Stream) (line : String) : IO String := do
   | "stack" :: args => pure (StackFam.handle args)
   | "sel" :: args => SelFam.handle stdin stdout args
   | "ops" :: args => OpsFam.handle stdin stdout args
+  | "res" :: args => ResFam.handle stdin stdout args
   | "ping" :: _ => pure "pong"
   | _ => pure "bad-family"
 
